@@ -62,16 +62,18 @@ mod agg_minmaxsum__ser;
 mod agg_lattice__ser;
 mod neg_rec_after__ser;
 mod agg_empty__ser;
-mod disj__to;
-mod disj__redecl;
-mod disj__exp;
-mod pat_args__par;
-mod rep_expr__exppar;
-mod neg_in_disj__pari;
-mod mac_basic__run;
-mod mac_basic__runpar;
-mod mac_capture__exppar;
-mod mac_disj__pari;
+mod agg_empty_rel__to;
+mod disj__par;
+mod disj__src1;
+mod disj__ren;
+mod disj_nested__exppar;
+mod rep_expr__pari;
+mod neg_in_disj__ser;
+mod mac_basic__to;
+mod mac_basic__redecl;
+mod mac_capture__pari;
+mod mac_gensym_disj__ser;
+mod mac_disj__exp;
 
 fn lookup(name: &str) -> fn() -> Box<dyn Driven> {
    match name {
@@ -129,16 +131,18 @@ fn lookup(name: &str) -> fn() -> Box<dyn Driven> {
       "agg_lattice__ser" => agg_lattice__ser::make,
       "neg_rec_after__ser" => neg_rec_after__ser::make,
       "agg_empty__ser" => agg_empty__ser::make,
-      "disj__to" => disj__to::make,
-      "disj__redecl" => disj__redecl::make,
-      "disj__exp" => disj__exp::make,
-      "pat_args__par" => pat_args__par::make,
-      "rep_expr__exppar" => rep_expr__exppar::make,
-      "neg_in_disj__pari" => neg_in_disj__pari::make,
-      "mac_basic__run" => mac_basic__run::make,
-      "mac_basic__runpar" => mac_basic__runpar::make,
-      "mac_capture__exppar" => mac_capture__exppar::make,
-      "mac_disj__pari" => mac_disj__pari::make,
+      "agg_empty_rel__to" => agg_empty_rel__to::make,
+      "disj__par" => disj__par::make,
+      "disj__src1" => disj__src1::make,
+      "disj__ren" => disj__ren::make,
+      "disj_nested__exppar" => disj_nested__exppar::make,
+      "rep_expr__pari" => rep_expr__pari::make,
+      "neg_in_disj__ser" => neg_in_disj__ser::make,
+      "mac_basic__to" => mac_basic__to::make,
+      "mac_basic__redecl" => mac_basic__redecl::make,
+      "mac_capture__pari" => mac_capture__pari::make,
+      "mac_gensym_disj__ser" => mac_gensym_disj__ser::make,
+      "mac_disj__exp" => mac_disj__exp::make,
       _ => panic!("no such program variant in this shard: {}", name),
    }
 }
